@@ -75,7 +75,13 @@ def ops_for(rng, d, path, comments, depth):
     if d.typ not in ('int', 'float', 'bool', 'str'):
         return L
     r = rng.random()
-    if d.is_list:
+    if d.is_list and d.typ == 'str' and rng.random() < 0.08:
+        # NULL elements (only the API can make them)
+        n = rng.randint(1, 3)
+        vals = [sval(rng, 'str') for _ in range(n)]
+        vals[rng.randrange(n)] = '-'
+        L.append('%s 0 %s str %d %s' % (rng.choice(['setlist', 'addlist']), hp, n, ' '.join(vals)))
+    elif d.is_list:
         if r < 0.3:
             n = rng.randint(0, 4)
             L.append('setlist 0 %s %s %d %s' % (hp, d.typ, n, ' '.join(sval(rng, d.typ) for _ in range(n))))
@@ -142,7 +148,8 @@ def canon(tree):
         elif o['t'] == 'float':
             out.append((o['n'], 'float', ['%f' % float.fromhex(x) for x in o['v']]))
         elif o['t'] in ('int', 'bool', 'str'):
-            out.append((o['n'], o['t'], list(o['v'])))
+            # a NULL element of a string list has no bytes; print writes it as "" and it reads back as the empty string
+            out.append((o['n'], o['t'], ['' if (x is None and o['t'] == 'str' and o['f'] & F_LIST) else x for x in o['v']]))
     return out
 
 
@@ -242,8 +249,7 @@ def judge(spec, events, death):
         v.bad('harness:short-log', 'events missing')
         return v
     if has_null_str(S):
-        v.skipped = True
-        return v
+        v.notes['states_with_null_list_elements'] = 1
     v.nontrivial = interesting(S)
     P1, P2, P3 = unhx(p1['out']), unhx(p2['out']), unhx(p3['out'])
     diags1 = [unhx(e['msg']) for e in groups['P1'] if e.get('ev') == 'diag']
